@@ -38,7 +38,8 @@ class Message(MutableMapping):
 
     def __init__(self, set_defaults=True, **kwargs):
         if set_defaults:
-            self._dict = self.c_default.copy()
+            # every message its own copy: a default may be a list
+            self._dict = copy.deepcopy(self.c_default)
         else:
             self._dict = {}
         self.lax = False
@@ -77,7 +78,9 @@ class Message(MutableMapping):
         Based on specification set a parameters value to the default value.
         """
         for key, val in self.c_default.items():
-            self._dict.setdefault(key, val)
+            if key not in self._dict:
+                # every message its own copy: a default may be a list
+                self._dict[key] = copy.deepcopy(val)
 
     def to_urlencoded(self, doseq=False):
         """
